@@ -107,7 +107,7 @@ func init() {
 
 func runRegistry(t *simrt.Tape, rc *RunCtx) *Violation {
 	const prop = "C09"
-	rc.declare("duplicate_registration_raced", "history_checked", "porcupine_unknown")
+	rc.declare("duplicate_registration_raced", "history_checked")
 	regRunCounter++
 	tag := fmt.Sprintf("vsym%d_%d", regRunCounter, time.Now().Nanosecond()%1) // unique per execution in this process
 	nclients := 2 + t.Choose(simrt.KWorkload, 3)
